@@ -93,7 +93,7 @@ int main(void) {
 			if (fk) {
 				fflush(stdout);
 				pid_t p = fork();
-				if (p == 0) { alarm(10); one(a, tkind, targ); fflush(stdout); _exit(0); }
+				if (p == 0) { alarm(600); one(a, tkind, targ); fflush(stdout); _exit(0); }
 				int st = 0;
 				while (waitpid(p, &st, 0) < 0 && errno == EINTR) { }
 				if (!(WIFEXITED(st) && WEXITSTATUS(st) == 0))
